@@ -352,6 +352,15 @@ def apply_anchor_inserts(text, inserts):
             o = text.find("{")
             text = text[:o + 1] + "\n" + "".join("    " + l + "\n" for l in payload) + text[o + 1:]
             continue
+        if where == "finish":
+            o = text.find("{")
+            c = text.rfind("}")
+            pl = "".join("    " + l + "\n" for l in payload)
+            if anchor == "ret":
+                text = text[:o + 1] + "\n    let vp_ret = {" + text[o + 1:c] + "};\n" + pl + "    vp_ret\n" + text[c:]
+            else:
+                text = text[:c] + pl + text[c:]
+            continue
         idx = -1
         start = 0
         for _ in range(nth):
@@ -389,13 +398,22 @@ def apply_loops(body, loops):
         if k > len(found):
             raise AnchorLost("loop #%d not found (function has %d loops)" % (k, len(found)))
         pos, kw = found[k - 1]
-        binder, payload = loops[k]
+        binder, payload = loops[k][0], loops[k][1]
+        bodystart = loops[k][2] if len(loops[k]) > 2 else []
+        loopend = loops[k][3] if len(loops[k]) > 3 else []
         o = find_at_depth0(m_, pos, len(m_), ["{"])
         if o < 0:
             raise AnchorLost("loop #%d has no body" % k)
         ls = line_start(body, pos)
         indent = re.match(r"[ \t]*", body[ls:]).group(0) + "    "
         clause = "\n" + "".join(indent + l + "\n" for l in payload) + indent[:-4]
+        if loopend:
+            # position-only insert right after the closing brace of the loop
+            c = match_close(m_, o)
+            body = body[:c + 1] + "\n" + "".join(indent[:-4] + l + "\n" for l in loopend) + body[c + 1:]
+        if bodystart:
+            # position-only insert at the start of the loop body (no anchor in the body text)
+            body = body[:o + 1] + "\n" + "".join(indent + l + "\n" for l in bodystart) + body[o + 1:]
         body = body[:o].rstrip() + clause + body[o:]
         if binder:
             if kw != "for":
@@ -653,12 +671,25 @@ def parse_template(tpl_text, base_dir=None, hashes=None):
             k = int(toks[0])
             a = parse_attrs(" ".join(toks[1:]))
             payload = []
-            cur.loops[k] = (a.get("binder"), payload)
+            prev = cur.loops.get(k)
+            cur.loops[k] = (a.get("binder"), payload, prev[2] if prev else [], prev[3] if prev else [])
+            target = payload
+        elif word in ("loopstart", "loopend"):
+            k = int(rest.split()[0])
+            payload = []
+            prev = cur.loops.get(k) or (None, [], [], [])
+            cur.loops[k] = (prev[0], prev[1], payload, prev[3]) if word == "loopstart" else (prev[0], prev[1], prev[2], payload)
             target = payload
         elif word == "start":
             # position-only insert: right after the opening brace of the function body (no anchor in the body text)
             payload = []
             cur.inserts.append(("start", "", 1, payload))
+            target = payload
+        elif word == "finish":
+            # position-only insert: right before the closing brace of the function body; with `ret=1` the body is first bound
+            # (`let vp_ret = { body };`) so that the payload can name the value the function is about to return
+            payload = []
+            cur.inserts.append(("finish", "ret" if "ret=1" in rest else "", 1, payload))
             target = payload
         elif word in ("before", "after"):
             toks = shlex.split(rest)
